@@ -1,0 +1,86 @@
+package compiler
+
+import (
+	"fmt"
+	"unicode"
+
+	"github.com/grafana/cog/internal/ast"
+)
+
+var _ Pass = (*EnumMemberIdentifiers)(nil)
+
+// EnumMemberIdentifiers checks that the members of every enum can be named in
+// the target language.
+//
+// `Identifier` gives the identifier that the language writes for a member
+// (without it, members are not named and nothing is checked). A
+// member for which nothing usable is left (`"="`, `"*"`) or two members that
+// end up with the same identifier (`"<"` and `">"`, `"m"` and `"M"`) can't be
+// generated: the pass reports them instead of letting code that does not
+// compile be written.
+type EnumMemberIdentifiers struct {
+	Language   string
+	Identifier func(member ast.EnumValue) string
+}
+
+func (pass *EnumMemberIdentifiers) Process(schemas []*ast.Schema) ([]*ast.Schema, error) {
+	if pass.Identifier == nil {
+		return schemas, nil
+	}
+
+	for _, schema := range schemas {
+		for _, object := range schema.Objects.Values() {
+			if !object.Type.IsEnum() {
+				continue
+			}
+
+			if err := pass.checkEnum(object); err != nil {
+				return nil, err
+			}
+		}
+	}
+
+	return schemas, nil
+}
+
+func (pass *EnumMemberIdentifiers) checkEnum(object ast.Object) error {
+	// identifier → the member it was given to
+	identifiers := make(map[string]ast.EnumValue)
+
+	for _, member := range object.Type.AsEnum().Values {
+		identifier := pass.Identifier(member)
+
+		if !isIdentifier(identifier) {
+			return fmt.Errorf("%s.%s: the enum member '%s' (%v) can not be named in %s ('%s' is not an identifier): give it a name", object.SelfRef.ReferredPkg, object.Name, member.Name, member.Value, pass.Language, identifier)
+		}
+
+		if other, taken := identifiers[identifier]; taken {
+			return fmt.Errorf("%s.%s: the enum members '%s' (%v) and '%s' (%v) are both named '%s' in %s: give them distinct names", object.SelfRef.ReferredPkg, object.Name, other.Name, other.Value, member.Name, member.Value, identifier, pass.Language)
+		}
+
+		identifiers[identifier] = member
+	}
+
+	return nil
+}
+
+// isIdentifier tells whether a name is made of letters, digits and underscores
+// and does not start with a digit.
+func isIdentifier(name string) bool {
+	if name == "" {
+		return false
+	}
+
+	for i, char := range name {
+		if char == '_' || unicode.IsLetter(char) {
+			continue
+		}
+		if i > 0 && unicode.IsDigit(char) {
+			continue
+		}
+
+		return false
+	}
+
+	return true
+}
